@@ -106,7 +106,7 @@ structure RSchema where
 deriving DecidableEq
 
 inductive RErr where
-  | declaredTwice | shadow | cycle | undefinedType | undefinedEntity | undefinedBuiltin
+  | declaredTwice | shadow | cycle | undefinedType | undefinedEntity | undefinedBuiltin | unknownExtension
   | contextNotRecord | undefinedParent | actionCycle
 deriving DecidableEq, Repr
 
@@ -273,7 +273,9 @@ def resolveTyWith (r : RState) (k : String → Ty → Fuelled RTy) (ns : String)
   | .string => some (.ok .string)
   | .long => some (.ok .long)
   | .bool => some (.ok .bool)
-  | .ext n => some (.ok (.ext n))
+  | .ext n =>
+    -- only the extension types `lookupBuiltin` knows exist (`{"type":"Extension","name":"nope"}` is an error)
+    if lookupBuiltin n = some (.ext n) then some (.ok (.ext n)) else some (.error .unknownExtension)
   | .set e =>
     match resolveTyWith r k ns e with
     | none => none
